@@ -52,6 +52,11 @@ def parse_vspec(path):
                 if len(parts) != 2:
                     raise SystemExit(f"{path}: @@pin needs 'original' ==> 'replacement' sections")
                 fnspec(unit, cur[2])["pins"].append({"original": parts[0].strip(), "replacement": parts[1].strip(), "stmt": cur[1]})
+            elif kind == "outline":
+                parts = text.split("\n==>\n")
+                if len(parts) != 2:
+                    raise SystemExit(f"{path}: @@outline needs 'original' ==> 'call' sections")
+                fnspec(unit, cur[3]).setdefault("outlines", []).append({"name": cur[1], "header": cur[2], "original": parts[0].strip(), "call": parts[1].strip()})
             elif kind == "raw":
                 g["raw"].append({"text": text, "after_unit": unit["name"] if unit else None, "props": cur[1]})
             elif kind == "unit_raw":
@@ -150,6 +155,15 @@ def parse_vspec(path):
                 fnspec(unit, m.group(2))["attrs"].append(m.group(1).strip())
             elif d == "external_body":
                 fnspec(unit, arg or None)["external_body"] = True
+            elif d == "hoist":
+                unit["hoist"] = True
+            elif d == "outline":
+                # @@outline <helper fn header>   e.g.  @@outline fn vx_o_x(response: &Response) -> Vec<&response::App>
+                # optional [fn=origin] prefix selects the fn of an impl unit
+                m = re.match(r"^(?:fn=(\S+)\s+)?(.*)$", arg)
+                hdr = m.group(2).strip()
+                nm = re.match(r"^(?:async\s+)?fn\s+(\w+)", hdr).group(1)
+                cur = ("outline", nm, hdr, m.group(1))
             elif d == "self_mut":
                 fnspec(unit, arg or None)["self_mut"] = True
             elif d == "try":
@@ -243,7 +257,7 @@ def load_groups():
 # ----------------------------------------------------------------------------------------
 # extraction
 # ----------------------------------------------------------------------------------------
-def run_vx(group, vac=False):
+def run_vx(group, vac_names=None):
     units = []
     for u in group["units"]:
         if u["kind"] == "text":
@@ -251,7 +265,8 @@ def run_vx(group, vac=False):
         req = {"name": u["name"], "file": u["file"], "kind": u["kind"], "path": u.get("path", []),
                "self_ty": u.get("self_ty"), "trait": u.get("trait"), "method": u.get("method"),
                "fns": u["fns"], "derive_keep": u.get("derive_keep"), "only_methods": u.get("only_methods"),
-               "pre_attrs": u.get("pre_attrs", []), "drop_fields": u.get("drop_fields", [])}
+               "pre_attrs": u.get("pre_attrs", []), "drop_fields": u.get("drop_fields", []),
+               "hoist": bool(u.get("hoist")), "vac": bool(vac_names and u["name"] in vac_names)}
         units.append(req)
     job = {"repo": REPO, "units": units, "renames": group["renames"], "macro_map": group["macro_map"],
            "expr_map": group["exprmap"], "type_map": group.get("typemap", [])}
